@@ -102,7 +102,10 @@ def run(spec, rec):
         labels = bool(rng.random() < 0.7)
         folded = bool(rng.random() < 0.35)
         ids = ["pop %s" % chr(65 + i) for i in range(ndim)] if labels else None
-        base = Spectrum(rng.uniform(0.1, 9, size=shape), mask_corners=bool(rng.integers(2)), pop_ids=ids)
+        raw = rng.uniform(0.1, 9, size=shape)
+        if ci % 3 == 1:
+            raw = np.asfortranarray(raw)       # the memory layout behind a spectrum is not part of its value
+        base = Spectrum(raw, mask_corners=bool(rng.integers(2)), pop_ids=ids)
         fs = base.fold() if folded else base
         # what the explicit arithmetic works on: unfolded data with masked corners counting as 0
         U = fs.unfold() if folded else fs
